@@ -32,6 +32,13 @@ def check(prop: str, tier: str) -> int:
     tier = os.environ.get("VERIF_TIER", tier) if tier not in ("quick", "thorough") else tier
     ctx = core.Ctx(prop, tier, seed)
     try:
+        # temporary files of the implementation (it leaves one rule file per semgrep-detected codemod and run behind) and of
+        # every subprocess go under the check's scratch directory, which is removed at exit, instead of piling up in /tmp
+        import tempfile
+        tmpd = ctx.scratch / "tmp"
+        tmpd.mkdir(exist_ok=True)
+        os.environ["TMPDIR"] = str(tmpd)
+        tempfile.tempdir = str(tmpd)
         mod = importlib.import_module(f"harness.{prop.lower()}")
         ctx.build = core.build()
         ctx.tables = ctx.build.get("tables", {}).get("values", {})
